@@ -346,6 +346,40 @@ class _Flat(Str):
         return True
 
 
+def binary_stale_runs(chk):
+    """the compiled binary in a working directory that already holds a report with entries (what an earlier run left behind): afterwards the
+    entries of solstat_report.md are exactly the findings of THIS run -- none when the analysed project has no findings or no pattern is selected"""
+    import os
+    import subprocess
+    binary = os.path.join(chk.world.build, 'solstat')
+    stale = '# Gas Optimizations - (Total Optimizations 2)\n\n### Lines\n- Old.sol:3\n- Old.sol:9\n'
+    clean_src = 'pragma solidity 0.8.16;\ncontract Vault {}\n'
+    found_src = 'pragma solidity 0.8.16;\ncontract Vault {\n    uint256 st;\n    function w() public { st = 1; }\n}\n'
+    scenarios = [('a project without findings, default patterns', clean_src, None, set()),
+                 ('a project with findings, no pattern selected', found_src, 'optimizations = []\nvulnerabilities = []\nqa = []\n', set()),
+                 ('a project with one finding, one pattern selected', found_src, 'optimizations = ["sstore"]\nvulnerabilities = []\nqa = []\n', {('Vault.sol', 4)})]
+    for what, src, cfg, want in scenarios:
+        d = os.path.join(chk.native.dir, 'stale%d' % chk.native.n)
+        chk.native.n += 1
+        os.makedirs(os.path.join(d, 'contracts'))
+        open(os.path.join(d, 'contracts', 'Vault.sol'), 'w').write(src)
+        open(os.path.join(d, 'solstat_report.md'), 'w').write(stale)
+        cmd = [binary]
+        if cfg is not None:
+            open(os.path.join(d, 'cfg.toml'), 'w').write('path = "contracts"\n' + cfg)
+            cmd += ['--toml', 'cfg.toml']
+        p = subprocess.run(cmd, cwd=d, stdout=subprocess.PIPE, stderr=subprocess.PIPE, text=True)
+        chk.validated += 1
+        rp = os.path.join(d, 'solstat_report.md')
+        rep = open(rp).read() if os.path.exists(rp) else ''
+        got = {(m.group(1), int(m.group(2))) for m in re.finditer(r'^- (.+):(-?\d+)$', rep, re.M)}
+        if p.returncode != 0 or got != want:
+            chk.violation('binary:stale-report', 'solstat on %s, in a working directory with an older report: exit status %d, the report lists %r, the findings of the run are %r' % (
+                what, p.returncode, sorted(got), sorted(want)), {'job': 'solstat_stale', 'source': src, 'config': cfg, 'stale': stale, 'expected': sorted(want), 'observed': sorted(got)})
+        else:
+            chk.ok()
+
+
 def body(chk, which='C11'):
     chk.bounds = {'patterns per map': 'vulnerabilities: all 16 subsets, QA: all 8, optimizations: every single pattern, %s pairs, sampled larger subsets and all 23' % ('60 seeded' if chk.quick else 'all 253'),
                   'files per pattern': '1..2 (thorough 3)', 'lines per file': '1..2 (thorough 3), symbolic, increasing',
@@ -360,6 +394,8 @@ def body(chk, which='C11'):
     chk.parallel(lambda c, it: check_shapes(c, it, which), items)
     static_checks(chk)
     full_report(chk)
+    if which == 'C11':
+        binary_stale_runs(chk)
 
 
 if __name__ == '__main__':
